@@ -21,6 +21,11 @@ sys.path.insert(0, os.path.dirname(os.path.abspath(__file__)))
 from refmodel import huff_encode, int_octets
 
 
+def _utime():
+    import resource
+    return resource.getrusage(resource.RUSAGE_SELF).ru_utime
+
+
 def family(name, n):
     """-> (setup blocks, block, decoder kwargs)"""
     big = 1 << 40
@@ -105,19 +110,37 @@ def main():
         return d
 
     out = {'family': name, 'n': n, 'len': len(block)}
-    if mode == 'time':
+    if mode == 'time-ref':
+        # the same measurement on the harness's reference decoder (control for machine load; never the library)
+        from refmodel import RefDecoder, RefError
+        best = None
+        for _ in range(reps):
+            rd = RefDecoder(list_limit=kw.get('limit', 65536))
+            if 'allowed' in kw:
+                rd.allowed = kw['allowed']
+            for s_ in setup:
+                rd.decode(bytes(s_))
+            t = _utime()
+            try:
+                r = rd.decode(bytes(block)); res = 'ok %d' % len(r)
+            except RefError as e:
+                res = 'err'
+            dt = _utime() - t
+            best = dt if best is None else min(best, dt)
+        out.update(time=best, result=res)
+    elif mode == 'time':
         best = None
         res = None
         for _ in range(reps):
             d = fresh()
-            t = os.times().user          # user CPU only: page-fault (system) time depends on the machine's memory pressure
+            t = _utime()          # user CPU only: page-fault (system) time depends on the machine's memory pressure
             try:
                 r = d.decode(block, raw=True); res = 'ok %d' % len(r)
             except HPACKDecodingError as e:
                 res = 'err ' + type(e).__name__
             except Exception as e:
                 res = 'esc ' + type(e).__name__
-            dt = os.times().user - t
+            dt = _utime() - t
             best = dt if best is None else min(best, dt)
         out.update(time=best, result=res)
     else:
